@@ -43,6 +43,8 @@ Abstractions
   commits of one step is itself a state reached by a prefix of the step's fold (C08).
 * Ghost fields (not in the code): `seen` (ids delivered since the last crash, plus those with an
   ext at the crash) and `expiryFired`.
+* `restart` / `ROp` / `rstep` (end of this file): the step function extended with the process
+  restart (`crash` followed by the start-up scan's deliveries); C01's restart theorems are about it.
 -/
 namespace CkbVerif.Chain
 open CkbVerif.Gen.Chain
@@ -277,5 +279,78 @@ def scanList (T : Tree) (maxEpochLen : Nat) (order : List Nat) (s : State) : Lis
   cands.filter fun c =>
     decide (start ≤ T.num c) && decide (T.num c ≤ stop) &&
     (List.range (T.num c - tipNum)).all fun i => cands.any fun x => T.num x == tipNum + 1 + i
+
+/-! ## Restart (C01 / C08): stop of the process, start on the same database
+
+`chain/src/init.rs` `build_chain_services` starts the `InitLoadUnverified` thread, which
+(`init_load_unverified.rs` `find_and_verify_unverified_blocks`) walks the numbers of the scan window in
+ascending order and, per number, hands every stored hash without `BlockExt` (NUMBER_HASH key order) to
+`ChainController::asynchronous_process_lonely_block` — the ordinary delivery path, without callback and
+without waiting for verification. A stop of the process (clean or not) drops the volatile state: a clean
+stop only drains the request channel and then abandons the preload / verify queues, it flushes nothing.
+So `restart` = `crash`, then `deliver` (empty sibling hint) of every block of `scanList`, in that order;
+the verify thread's steps are separate `verify` operations, interleaved arbitrarily with later ones. -/
+
+/-- `InitLoadUnverified::start` on the database the stopped process left behind -/
+def restart (T : Tree) (maxEpochLen : Nat) (order : List Nat) (s : State) : State × Out :=
+  let s0 := crash s
+  (scanList T maxEpochLen order s0).foldl
+    (fun (acc : State × Out) b => let r := deliver T [] acc.1 b; (r.1, acc.2 ++ r.2)) (s0, [])
+
+/-- operations of a node that can also be stopped and started again. `maxEpochLen` is
+`Consensus::max_epoch_length()` and `order` the NUMBER_HASH iteration order of the block ids: both are
+parameters of the deployment, constant over a history (the theorems hold for every value). -/
+inductive ROp
+  | op (o : Op)
+  | restart (maxEpochLen : Nat) (order : List Nat)
+  deriving DecidableEq
+
+/-- the step function with `Restart` -/
+def rstep (T : Tree) (s : State) : ROp → State × Out
+  | .op o => step T s o
+  | .restart mel order => restart T mel order s
+
+def rrun (T : Tree) (s : State) : List ROp → State
+  | [] => s
+  | op :: ops => rrun T (rstep T s op).1 ops
+
+/-! ## Panic state (finding F7)
+
+The preload thread loads a queued block with `store.get_block(hash).expect("block stored")`
+(`preload_unverified_blocks_channel.rs`), the verify thread deletes a block that failed with
+`delete_unverified_block` → `get_block` → `expect("block uncles must be stored")` (`store/src/store.rs`):
+both assume that the data of a queued block is still in the database. The preload thread runs
+independently of the verify thread and may be arbitrarily late (it is forced to be late as soon as more
+than 128 blocks are queued in front), so "the head of the merged queue has no block data when it is
+taken" is a panic of the code as written under a legal schedule (with an early preload the same head
+panics in the verify thread when it fails again and its header is still cached). The thread that
+panicked is gone: nothing is verified any more until the process is restarted; the chain-service thread
+(deliveries, expiry) keeps running. -/
+
+/-- the verify / preload thread would hit its `expect`: the block it takes from the queue has no data -/
+def verifyPanics (s : State) : Bool :=
+  match s.queue with
+  | [] => false
+  | b :: _ => !s.stored b
+
+structure PState where
+  st : State
+  /-- a pipeline thread has panicked: the verify queue is not consumed any more -/
+  dead : Bool
+
+def pinit (T : Tree) : PState := { st := init T, dead := false }
+
+/-- the step function with the panic state; a process restart (`crash`) revives the pipeline -/
+def pstep (T : Tree) (p : PState) : Op → PState
+  | .verify =>
+    if p.dead then p
+    else if verifyPanics p.st then { p with dead := true }
+    else { p with st := (verifyHead T p.st).1 }
+  | .crash => { st := crash p.st, dead := false }
+  | op => { p with st := (step T p.st op).1 }
+
+def prun (T : Tree) (p : PState) : List Op → PState
+  | [] => p
+  | op :: ops => prun T (pstep T p op) ops
 
 end CkbVerif.Chain
